@@ -700,7 +700,7 @@ package memberlist
 //@   safety [C10,C13,C20]
 //@   monitor TransmitLimitedQueue.mu
 //@   requires nn: q != nil
-//@   at call Broadcast.Finished: set $fin := upd($fin, cur, $fin[cur] + 1)
+//@   at call Broadcast.Finished: set $fin := upd($fin, recvOwner, $fin[recvOwner] + 1)
 //@   loop #1 invariant fin [C10]: finOK(q) && (forall p *limitedBroadcast :: old(inTree(q.tq, p)) ==> finAcct(q, p))
 //@   ensures once [C10]: old(q.tq) != nil ==> (forall p *limitedBroadcast :: old(inTree(q.tq, p)) ==> finAcct(q, p))
 //@   at call (*TransmitLimitedQueue).lenLocked #1: set $held := zeromap()
@@ -725,13 +725,13 @@ package memberlist
 //@ func (*TransmitLimitedQueue).queueBroadcast$1(item)
 //@   safety [C10,C13,C20]
 //@   inline
-//@   at call Broadcast.Finished: set $fin := upd($fin, cur, $fin[cur] + 1)
+//@   at call Broadcast.Finished: set $fin := upd($fin, recvOwner, $fin[recvOwner] + 1)
 //@   at call append: set $ridx := upd($ridx, cur, len(res) - 1)
 
 //@ func (*TransmitLimitedQueue).Reset$1(cur)
 //@   safety [C10,C13,C20]
 //@   inline
-//@   at call Broadcast.Finished: set $fin := upd($fin, cur, $fin[cur] + 1)
+//@   at call Broadcast.Finished: set $fin := upd($fin, recvOwner, $fin[recvOwner] + 1)
 
 //@ func (*TransmitLimitedQueue).QueueBroadcast(q, b)
 //@   safety [C10,C13,C20]
@@ -742,7 +742,7 @@ package memberlist
 //@   monitor TransmitLimitedQueue.mu
 //@   requires nn: q != nil && b != nil && initialTransmits >= 0
 //@   at call (*TransmitLimitedQueue).lazyInit: set $held := zeromap()
-//@   at call Broadcast.Finished: set $fin := upd($fin, q.tm[lb.name], $fin[q.tm[lb.name]] + 1)
+//@   at call Broadcast.Finished: set $fin := upd($fin, recvOwner, $fin[recvOwner] + 1)
 //@   at call (*github.com/google/btree.BTree).Ascend: iter-invariant fin [C10]: (forall p *limitedBroadcast :: !allocated(p) ==> $fin[p] == 0) && $fin[lb] == 0 && (forall p *limitedBroadcast :: inTree(q.tq, p) ==> $fin[p] == 0 || ($fin[p] == 1 && 0 <= $ridx[p] && $ridx[p] < len(*cell_remove) && (*cell_remove)[$ridx[p]] == p))
 //@   loop #1 invariant fin [C10]: (forall p *limitedBroadcast :: !allocated(p) ==> $fin[p] == 0) && $fin[lb] == 0 && (forall p *limitedBroadcast :: inTree(q.tq, p) ==> $fin[p] == 0 || ($fin[p] == 1 && rangeindex < $ridx[p] && $ridx[p] < len(remove) && remove[$ridx[p]] == p))
 //@   at call (*github.com/google/btree.BTree).Ascend: iter-invariant done [C10]: forall i int :: 0 <= i && i < len(*cell_remove) ==> $fin[(*cell_remove)[i]] == 1
@@ -791,7 +791,7 @@ package memberlist
 //@   at call append #2: assert below-limit [C10]: (*keep).transmits < transmitLimit
 //@   at call append #2: set $held := upd($held, *keep, 1)
 //@   at call append #2: set $hidx := upd($hidx, *keep, len(res) - 1)
-//@   at call Broadcast.Finished: set $fin := upd($fin, *keep, $fin[*keep] + 1)
+//@   at call Broadcast.Finished: set $fin := upd($fin, recvOwner, $fin[recvOwner] + 1)
 //@   loop #1 invariant fin [C10]: finOK(q) && (forall p *limitedBroadcast :: $held[p] == 1 ==> $fin[p] == 0 && 0 <= $hidx[p] && $hidx[p] < len(reinsert) && reinsert[$hidx[p]] == p)
 //@   loop #1 invariant acct [C10]: forall p *limitedBroadcast :: old(inTree(q.tq, p)) ==> (inTree(q.tq, p) && $fin[p] == 0) || ($held[p] == 1 && !inTree(q.tq, p)) || ($held[p] != 1 && !inTree(q.tq, p) && $fin[p] == 1)
 //@   loop #2 invariant fin [C10]: finOK(q) && (forall p *limitedBroadcast :: $held[p] == 1 ==> $fin[p] == 0 && 0 <= $hidx[p] && $hidx[p] < len(reinsert) && reinsert[$hidx[p]] == p && ($hidx[p] <= rangeindex ==> inTree(q.tq, p)))
